@@ -523,6 +523,24 @@ def run(ctx):
     r.check(ok and not cmp_bad, "client:KafkaClient#one-fallback-state", "the fallback state of _api_versions is not one falsy constant used by every "
             "store and comparison: stores %s, comparisons with another constant %s" % (sorted(set(map(repr, fallbacks))), cmp_bad),
             where(gav, gav.node), "a reader comparing with the old constant takes the fallback state for a discovered table: format-1 messages in a v0 request")
+    # the negotiated state is settled once: a message set is built for the version known when the batch is made and may
+    # be re-sent (retry) later - a table forgotten in between sends format-1 messages under whatever a failed
+    # re-discovery falls back to
+    all_stores = []
+    for f_ in sorted(prog.funcs.values(), key=lambda f: f.qname):
+        for x in walk_body_shallow(f_.body):
+            tg_ = x.targets if isinstance(x, ast.Assign) else ([x.target] if isinstance(x, (ast.AugAssign, ast.AnnAssign)) else [])
+            for t in tg_:
+                for tt in (t.elts if isinstance(t, ast.Tuple) else [t]):
+                    if isinstance(tt, ast.Attribute) and tt.attr == "_api_versions":
+                        all_stores.append((f_, x))
+    outside = ["%s:%d" % (f_.qname, x.lineno) for f_, x in all_stores if f_.name not in ("__init__", "_handle_api_version_update", "fetch_api_versions")]
+    forgets = ["%s:%d" % (f_.qname, x.lineno) for f_, x in all_stores if f_.name != "__init__" and isinstance(x, ast.Assign) and any(
+        isinstance(l_, ast.Constant) and l_.value is None for l_ in ([x.value.body, x.value.orelse] if isinstance(x.value, ast.IfExp) else [x.value]))]
+    r.check(not outside and not forgets, "client:KafkaClient#negotiated-state-settled-once", "the negotiated version state is written outside the "
+            "discovery functions (%s) or reset to `not discovered` after construction (%s)" % (outside, forgets), where(gav, gav.node),
+            "a format-1 batch built under the discovered table is retried after the table was forgotten and re-discovery failed: "
+            "format-1 messages under a version-0 header")
     rets = [n for n in cg.nodes if n.kind == "stmt" and isinstance(n.stmt, ast.Return)]
 
     def _is_fallback(facts_):
